@@ -10,9 +10,13 @@ class Edges(list):
 
 
 def parse_edges(out):
+    """out: TLC's output as a string or an iterable of lines (an open file).  Every transition is reduced at once to what the
+    planner needs (the two states only as canonical keys) - the dumps are hundreds of MB."""
+    import hashlib
     vers = None
     edges = Edges()
-    for line in out.splitlines():
+    feats = frozenset()      # (TLC evaluates the ASSUMEs that print VERS / FEATS before it generates any transition)
+    for line in (out.splitlines() if isinstance(out, str) else out):
         if not line.startswith('"'):
             continue
         try:
@@ -22,9 +26,18 @@ def parse_edges(out):
         if s.startswith("VERS "):
             vers = json.loads(s[5:])
         elif s.startswith("FEATS "):
-            edges.features = frozenset(json.loads(s[6:]))
+            feats = frozenset(json.loads(s[6:]))
         elif s.startswith("EDGE "):
-            edges.append(json.loads(s[5:]))
+            e = json.loads(s[5:])
+            r = {"from": hashlib.md5(json.dumps(e["from"], sort_keys=True).encode()).hexdigest(),
+                 "to": hashlib.md5(json.dumps(e["to"], sort_keys=True).encode()).hexdigest(),
+                 "client": e["client"], "step": e["step"] if e["client"] else None, "init": e["init"], "cfg": e["cfg"] if e["init"] else None,
+                 "toQuiet": e.get("toQuiet")}
+            if "toView" in e:
+                r["toViewCanon"] = canon_view(e["toView"], True, "persist" in feats)
+                r["toResult"] = result_of(e["toView"]) if e["client"] else None
+            edges.append(r)
+    edges.features = feats
     return vers, edges
 
 
@@ -70,13 +83,21 @@ def result_of(v):
 
 
 def view_of_st(st):
-    """The ConfView of a recorded vocabulary (one trace line of the driver)."""
+    """The ConfView of a recorded vocabulary (one trace line of the driver), reduced to the compared fields (a copy: the
+    trace line itself is not kept)."""
     return {"phase": st["phase"], "shut": st["shut"],
             "cfg": [{"def": c["def"], "ver": c["ver"] if c["def"] else 0} for c in st["cfg"]],
-            "pipes": st["pipes"], "jobs": st["jobs"],
+            "pipes": [{"listed": x["listed"], "schedulable": x["schedulable"], "running": x["running"]} for x in st["pipes"]],
+            "jobs": [({"listed": True, "p": j["p"], "ver": j["ver"], "started": j["started"], "completed": j["completed"],
+                       "canceled": j["canceled"], "errored": j["errored"], "lastErr": j["lastErr"],
+                       "tasks": [{"status": t["status"], "errored": t["errored"], "canceled": t["canceled"]} for t in j["tasks"]]}
+                      if j["listed"] else {"listed": False}) for j in st["jobs"]],
             "open": [[r["open"] for r in rs] for rs in st["runs"]],
-            "store": st["store"]["jobs"], "logs": st["logs"],
-            "res": st["last"]["res"], "err": st["last"]["err"], "new": st["last"]["new"]}
+            "store": [({"present": True, "completed": x["completed"], "canceled": x["canceled"], "started": x["started"], "same": x["same"]}
+                       if x["present"] else {"present": False}) for x in st["store"]["jobs"]],
+            "logs": list(st["logs"]),
+            "res": st["last"]["res"], "err": st["last"]["err"], "new": st["last"]["new"],
+            "skip": st["last"]["res"] == "skip", "gated": bool(st.get("conf", {}).get("has"))}
 
 
 def projection(core):
@@ -118,16 +139,16 @@ def plan(vers, edges, max_len=45, max_scripts=None, expectations=False):
     # a model configuration without the persist loop does not follow the content of the store
     with_store = "persist" in getattr(edges, "features", ())
     for e in edges:
-        u, v = nid(json.dumps(e["from"], sort_keys=True)), nid(json.dumps(e["to"], sort_keys=True))
+        u, v = nid(e["from"]), nid(e["to"])
         if expectations and v not in proj:
-            proj[v] = canon_view(e["toView"], True, with_store) if "toView" in e else projection(e["to"])
+            proj[v] = e.get("toViewCanon", "")
             quiet[v] = bool(e.get("toQuiet"))
         key = (u, v, json.dumps(e["step"], sort_keys=True) if e["client"] else "internal")
         if key in seen:
             continue
         seen.add(key)
         E.append((u, v, e["step"] if e["client"] else None))
-        RES.append(result_of(e["toView"]) if (expectations and e["client"] and "toView" in e) else None)
+        RES.append(e.get("toResult") if (expectations and e["client"]) else None)
         out[u].append(len(E) - 1)
         if e["init"]:
             init_cfg[u] = e["cfg"]
